@@ -598,9 +598,17 @@ func caseHasMandatory(cfg map[string]xnode, nd Node, path []string, errs []error
 }
 
 func resolveDescendant(c xnode, path []xml.Name) string {
+	val, _ := lookupDescendant(c, path)
+	return val
+}
+
+// lookupDescendant returns the value of the leaf the path leads to and
+// whether that leaf is present: a leaf that is present may well have the
+// empty string as its value.
+func lookupDescendant(c xnode, path []xml.Name) (string, bool) {
 
 	if len(path) == 0 {
-		return ""
+		return "", false
 	}
 	hd, tl := path[0], path[1:]
 	for _, ch := range c.children(xutils.Sorted) {
@@ -610,36 +618,36 @@ func resolveDescendant(c xnode, path []xml.Name) string {
 		csn := c.schema().Child(ch.YangDataName())
 		switch csn.(type) {
 		case Container:
-			return resolveDescendant(ch, tl)
+			return lookupDescendant(ch, tl)
 		case Leaf:
 			// Compiler enforces non-empty leaf reference
-			return ch.YangDataValuesNoSorting()[0]
+			return ch.YangDataValuesNoSorting()[0], true
 		default:
-			return ""
+			return "", false
 		}
 	}
-	return ""
+	return "", false
 }
 
 // If, and only if, the given config node contains ALL sub-nodes listed in
 // the unique statement (uniques), return a string containing the value
 // for each sub-node, separated by the 'middle dot' character.
 //
-// If any sub-node is not present, return an empty string. While this
+// If any sub-node is not present, report that no key exists. While this
 // might seem unintuitive, this is what the RFC specifies.
-func getUniqueKey(c xnode, uniques [][]xml.Name) string {
+func getUniqueKey(c xnode, uniques [][]xml.Name) (string, bool) {
 
 	var outs []string
 	for _, uniq := range uniques {
-		desc := resolveDescendant(c, uniq)
-		if desc == "" {
-			return ""
+		desc, present := lookupDescendant(c, uniq)
+		if !present {
+			return "", false
 		}
 		outs = append(outs, desc)
 	}
 	//use middle dot (U+00B7) to join strings so we don't have
 	//problems with string values.
-	return strings.Join(outs, "·")
+	return strings.Join(outs, "·"), true
 }
 
 func xmlPathToPath(path []xml.Name) []string {
@@ -705,8 +713,8 @@ func checkUnique(c xnode, valType ValidationType,
 	for _, u := range sch.Uniques() {
 		m := make(map[string][]xnode)
 		for _, key := range c.children(xutils.Sorted) {
-			k := getUniqueKey(key, u)
-			if k == "" {
+			k, present := getUniqueKey(key, u)
+			if !present {
 				// We skip entries that don't have all the nodes present
 				continue
 			}
